@@ -1,7 +1,46 @@
 import CoxeterVerif.Driver.Proto
+import CoxeterVerif.Driver.OpsC03
+import CoxeterVerif.Driver.OpsC11
 import CoxeterVerif.Model.Mutable
+import CoxeterVerif.Model.Setters
 
 namespace OpsC08
+open Setters Mut
+
+/-- a string as reply tokens: length, then the code points -/
+def outStr (s : String) : String :=
+  Out.ints ((s.length : Int) :: s.toList.map (fun ch => (ch.toNat : Int)))
+
+def outStrs (l : List String) : String :=
+  " ".intercalate (Out.int l.length :: l.map outStr)
+
+/-- an external getter value: `i0 <value>` = returned, `i1` NotImplementedError, `i2` RuntimeError,
+    `i3` ValueError, `i4` anything else -/
+def rdExt {α} [Codec α] (c : Ctx) : Rd (Except String α) := do
+  let code ← Rd.nat c
+  if code = 0 then
+    let v : α ← Rd.sc c
+    pure (.ok v)
+  else if code = 1 then pure (.error "NotImplementedError")
+  else if code = 2 then pure (.error "RuntimeError")
+  else if code = 3 then pure (.error "ValueError")
+  else pure (.error "Exception")
+
+def nth {β} (l : List β) (i : Nat) : Rd β :=
+  match l[i]? with
+  | some x => pure x
+  | none => throw s!"property index {i} out of range"
+
+def reply (r : Except String String) : String :=
+  match r with
+  | .ok s => s
+  | .error k => s!"E:{k}"
+
+/-- a getter value in a reply: `i0 value` or `i1` (raises) -/
+def outGet {α} [Codec α] (r : Except String α) : String :=
+  match r with
+  | .ok v => s!"i0 {Out.sc v}"
+  | .error _ => "i1"
 
 /-- driver ops of C08. `none` = unknown op. -/
 def run (α : Type) [Scalar α] [Codec α] (op : String) (c : Ctx) : Option (Rd String) :=
@@ -14,6 +53,170 @@ def run (α : Type) [Scalar α] [Codec α] (op : String) (c : Ctx) : Option (Rd 
       match Mut.setterFactor deg cur tgt with
       | .ok k => pure (Out.sc k)
       | .error e => pure s!"E:{e}"
+  | "setter.props" => some do
+      -- in: class index ; out: class name, scalar property names, vector property names
+      let i ← Rd.nat c
+      let cls ← nth Cls.all i
+      pure s!"{outStr cls.name} {outStrs (scalarProps cls)} {outStrs (vectorProps cls)}"
+  | "setter.cp" => some do
+      -- in: prop index, <cpstate>, ext, target ; out: post-state, read-back | E:kind
+      let pi ← Rd.nat c
+      let p ← nth P3Prop.all pi
+      let s : CPState α ← OpsC03.rdState c
+      let ext : Except String α ← rdExt c
+      let v : α ← Rd.sc c
+      -- after the assignment an external getter returns the target iff it is homogeneous: the
+      -- harness compares that on the live object; here it is not re-evaluated
+      pure <| reply do
+        let s' ← ConvexPolyhedron.set (fun _ _ => ext) p s v
+        pure s!"{OpsC03.outState s'} {outGet (ConvexPolyhedron.get (fun _ _ => .error "external") p s')}"
+  | "setter.cp.get" => some do
+      -- in: prop index, <cpstate>, ext ; out: the model's getter
+      let pi ← Rd.nat c
+      let p ← nth P3Prop.all pi
+      let s : CPState α ← OpsC03.rdState c
+      let ext : Except String α ← rdExt c
+      pure <| reply do
+        let g ← ConvexPolyhedron.get (fun _ _ => ext) p s
+        pure (Out.sc g)
+  | "setter.cp.centroid" => some do
+      -- certificate of the hypothesis `s.centroid = CP.centroid s.tris s.volume` of `cp_set_closed_reads_back`:
+      -- in: <cpstate> ; out: the recomputed centroid (the harness compares it with the cached one)
+      let s : CPState α ← OpsC03.rdState c
+      pure (Out.v3 (CP.centroid s.tris s.volume))
+  | "setter.ph" => some do
+      let pi ← Rd.nat c
+      let p ← nth P3Prop.all pi
+      let verts ← Rd.list c (Rd.v3 c)
+      let faces ← Rd.list c (Rd.list c (Rd.nat c))
+      let eqN ← Rd.list c (Rd.v3 c)
+      let eqD ← Rd.list c (Rd.sc c)
+      let s : PHState α := ⟨verts, faces, eqN, eqD⟩
+      let ext : Except String α ← rdExt c
+      let v : α ← Rd.sc c
+      pure <| reply do
+        let s' ← Polyhedron.set (fun _ _ => ext) p s v
+        let vs := " ".intercalate (s'.verts.map Out.v3)
+        let en := " ".intercalate (s'.eqN.map Out.v3)
+        pure s!"{vs} {en} {Out.scs s'.eqD} {Out.sc s'.volume} {Out.sc s'.surfaceArea} {outGet (Polyhedron.get (fun _ _ => .error "external") p s')}"
+  | "setter.pg" => some do
+      let pi ← Rd.nat c
+      let p ← nth P2Prop.all pi
+      let verts ← Rd.list c (Rd.v3 c)
+      let normal : V3 α ← Rd.v3 c
+      let s : PGState α := ⟨verts, normal⟩
+      let ext : Except String α ← rdExt c
+      let v : α ← Rd.sc c
+      pure <| reply do
+        let s' ← Polygon.set (fun _ _ => ext) p s v
+        let vs := " ".intercalate (s'.verts.map Out.v3)
+        pure s!"{vs} {Out.v3 s'.normal} {Out.sc s'.area} {Out.sc s'.perimeter} {outGet (Polygon.get (fun _ _ => .error "external") p s')}"
+  | "setter.spg" => some do
+      let pi ← Rd.nat c
+      let p ← nth SPGProp.all pi
+      let verts ← Rd.list c (Rd.v3 c)
+      let normal : V3 α ← Rd.v3 c
+      let radius : α ← Rd.sc c
+      let s : SPGState α := ⟨⟨verts, normal⟩, radius⟩
+      let ext : Except String α ← rdExt c
+      let v : α ← Rd.sc c
+      pure <| reply do
+        let s' ← Spheropolygon.set (fun _ _ => ext) p s v
+        let vs := " ".intercalate (s'.core.verts.map Out.v3)
+        pure s!"{vs} {Out.v3 s'.core.normal} {Out.sc s'.radius} {Out.sc s'.area} {Out.sc s'.perimeter} {outGet (Spheropolygon.get (fun _ _ => .error "external") p s')}"
+  | "setter.sph" => some do
+      -- in: prop index, <cpstate of the core>, radius, face intersections, ext, target
+      -- out: post core state, radius, the three edge-sum getters, read-back
+      let pi ← Rd.nat c
+      let p ← nth SPHProp.all pi
+      let core : CPState α ← OpsC03.rdState c
+      let radius : α ← Rd.sc c
+      let fi ← Rd.list c (OpsC11.rdFaceIx c)
+      let s : SPHState α := ⟨core, radius⟩
+      let ext : Except String α ← rdExt c
+      let v : α ← Rd.sc c
+      pure <| reply do
+        let s' ← Spheropolyhedron.set fi (fun _ _ => ext) p s v
+        let g := fun q => Spheropolyhedron.get fi (fun _ _ => .error "external") q s'
+        pure s!"{OpsC03.outState s'.core} {Out.sc s'.radius} {outGet (g .volume)} {outGet (g .surfaceArea)} {outGet (g .meanCurvature)} {outGet (g p)}"
+  | "setter.sph.get" => some do
+      -- in: prop index, <cpstate>, radius, fi ; out: the model's getter on this state
+      let pi ← Rd.nat c
+      let p ← nth SPHProp.all pi
+      let core : CPState α ← OpsC03.rdState c
+      let radius : α ← Rd.sc c
+      let fi ← Rd.list c (OpsC11.rdFaceIx c)
+      pure <| reply do
+        let g ← Spheropolyhedron.get fi (fun _ _ => .error "external") p ⟨core, radius⟩
+        pure (Out.sc g)
+  | "setter.circle" => some do
+      -- in: prop index, radius, centre, target ; out: radius centre read-back
+      let pi ← Rd.nat c
+      let p ← nth CircleProp.all pi
+      let r : α ← Rd.sc c
+      let cen : V3 α ← Rd.v3 c
+      let v : α ← Rd.sc c
+      pure <| reply do
+        let s' ← CircleS.set p ⟨r, cen⟩ v
+        pure s!"{Out.sc s'.radius} {Out.v3 s'.cen} {outGet (CircleS.get p s')}"
+  | "setter.sphere" => some do
+      let pi ← Rd.nat c
+      let p ← nth SphereProp.all pi
+      let r : α ← Rd.sc c
+      let cen : V3 α ← Rd.v3 c
+      let v : α ← Rd.sc c
+      pure <| reply do
+        let s' ← SphereS.set p ⟨r, cen⟩ v
+        pure s!"{Out.sc s'.radius} {Out.v3 s'.cen} {outGet (SphereS.get p s')}"
+  | "setter.ellipse" => some do
+      -- in: prop index, a b, centre, ellipe value before, ellipe value after, target
+      let pi ← Rd.nat c
+      let p ← nth EllipseProp.all pi
+      let a : α ← Rd.sc c
+      let b : α ← Rd.sc c
+      let cen : V3 α ← Rd.v3 c
+      let e0 : α ← Rd.sc c
+      let e1 : α ← Rd.sc c
+      let v : α ← Rd.sc c
+      pure <| reply do
+        let s' ← EllipseS.set (fun _ => e0) p ⟨a, b, cen⟩ v
+        pure s!"{Out.sc s'.a} {Out.sc s'.b} {Out.v3 s'.cen} {outGet (EllipseS.get (fun _ => e1) p s')}"
+  | "setter.ellipsoid" => some do
+      -- in: prop index, a b c, centre, ellipeinc / ellipkinc values before, after, target
+      let pi ← Rd.nat c
+      let p ← nth EllipsoidProp.all pi
+      let a : α ← Rd.sc c
+      let b : α ← Rd.sc c
+      let cc : α ← Rd.sc c
+      let cen : V3 α ← Rd.v3 c
+      let ei0 : α ← Rd.sc c
+      let ki0 : α ← Rd.sc c
+      let ei1 : α ← Rd.sc c
+      let ki1 : α ← Rd.sc c
+      let v : α ← Rd.sc c
+      pure <| reply do
+        let s' ← EllipsoidS.set (fun _ _ => ei0) (fun _ _ => ki0) p ⟨a, b, cc, cen⟩ v
+        pure s!"{Out.sc s'.a} {Out.sc s'.b} {Out.sc s'.c} {Out.v3 s'.cen} {outGet (EllipsoidS.get (fun _ _ => ei1) (fun _ _ => ki1) p s')}"
+  | "setter.curved.centre" => some do
+      -- in: class index (6 circle, 7 ellipse, 8 sphere, 9 ellipsoid), the radii (1/2/1/3), centre, new centre
+      let ci ← Rd.nat c
+      if ci = 6 then
+        let r : α ← Rd.sc c; let cen : V3 α ← Rd.v3 c; let t : V3 α ← Rd.v3 c
+        let s' := CircleS.setCentre ⟨r, cen⟩ t
+        pure s!"{Out.sc s'.radius} {Out.v3 s'.cen}"
+      else if ci = 8 then
+        let r : α ← Rd.sc c; let cen : V3 α ← Rd.v3 c; let t : V3 α ← Rd.v3 c
+        let s' := SphereS.setCentre ⟨r, cen⟩ t
+        pure s!"{Out.sc s'.radius} {Out.v3 s'.cen}"
+      else if ci = 7 then
+        let a : α ← Rd.sc c; let b : α ← Rd.sc c; let cen : V3 α ← Rd.v3 c; let t : V3 α ← Rd.v3 c
+        let s' := EllipseS.setCentre ⟨a, b, cen⟩ t
+        pure s!"{Out.sc s'.a} {Out.sc s'.b} {Out.v3 s'.cen}"
+      else
+        let a : α ← Rd.sc c; let b : α ← Rd.sc c; let cc : α ← Rd.sc c
+        let cen : V3 α ← Rd.v3 c; let t : V3 α ← Rd.v3 c
+        let s' := EllipsoidS.setCentre ⟨a, b, cc, cen⟩ t
+        pure s!"{Out.sc s'.a} {Out.sc s'.b} {Out.sc s'.c} {Out.v3 s'.cen}"
   | _ => none
 
 end OpsC08
